@@ -32,6 +32,7 @@ type Engine struct {
 	loadErrors    []string
 	tiBin         string
 	modPkgs       []string
+	orderSkip     map[string]string
 }
 
 func loadEngine(repo string, overlay map[string][]byte) (*Engine, error) {
